@@ -317,7 +317,11 @@ def build(spec, log, asynchronous, consumer_modes=None, faults=None, wrap_fn=Non
                 c = counters.get(_i, 0)
                 counters[_i] = c + 1
                 if c in fa:
-                    log.add("fx", _i, c)
+                    from .elements import prov as _prov
+                    # accumulate's state is a digest, not data in flight: the failing
+                    # invocation processes its current input only
+                    args = a[-1:] if spec["nodes"][_i]["k"] == "accumulate" else a
+                    log.add("fx", _i, c, _prov(args))
                     raise Boom(("f", _i, c))
                 return _f(*a, **k)
             g.__name__ = name
